@@ -122,3 +122,5 @@ func cleanPath(cwd string, segs []string) string {
 	}
 	return "/" + strings.Join(stack, "/")
 }
+
+var osReadFile = os.ReadFile
